@@ -372,9 +372,10 @@ def multizone_task(task):
         # dconv with both zones in one run versus two runs through UTC
         a, b = zones[0], zones[1]
         for v in dates:
-            r2 = run([str(bindir / "dconv"), "--from-zone", a, "--zone", b, "-f", "%FT%T", v], cpu=10, wall=60)
+            # (the offset is printed too: what the first zone left in the value must not show in the second's)
+            r2 = run([str(bindir / "dconv"), "--from-zone", a, "--zone", b, "-f", "%FT%T%Z", v], cpu=10, wall=60)
             u = run([str(bindir / "dconv"), "--from-zone", a, "-f", "%FT%T", v], cpu=10, wall=60)
-            w = run([str(bindir / "dconv"), "--zone", b, "-f", "%FT%T", u.out.decode("latin-1").strip()], cpu=10, wall=60)
+            w = run([str(bindir / "dconv"), "--zone", b, "-f", "%FT%T%Z", u.out.decode("latin-1").strip()], cpu=10, wall=60)
             sh.procs += 3
             if sh.check_san(r2, "san", "multizone:dconv"):
                 continue
@@ -384,7 +385,7 @@ def multizone_task(task):
             else:
                 sh.bad("history", "hist:dconv-zone-pair:%s" % kind,
                        "dconv --from-zone %s --zone %s %s -> %r, via UTC in two runs: %r" % (a, b, v, r2.out[:40], w.out[:40]),
-                       dict(argv=["dconv", "--from-zone", a, "--zone", b, "-f", "%FT%T", v], expected=w.out.decode("latin-1").strip()), cls=c)
+                       dict(argv=["dconv", "--from-zone", a, "--zone", b, "-f", "%FT%T%Z", v], expected=w.out.decode("latin-1").strip()), cls=c)
     return sh
 
 
